@@ -231,6 +231,7 @@ func ruleParserBounds(c *Ctx) {
 		return
 	}
 	n := 0
+	accesses := 0
 	for _, fn := range c.SrcFuncs() {
 		if fn.Signature.Recv() == nil || !c.isPkgType(fn.Signature.Recv().Type(), "respDeserializer") {
 			continue
@@ -275,16 +276,25 @@ func ruleParserBounds(c *Ctx) {
 			switch x := in.(type) {
 			case *ssa.IndexAddr:
 				if _, f := loadedField(x.X); f == fContent {
+					accesses++
 					check(in, x.Index, "index", true)
 				}
 			case *ssa.Slice:
-				if _, f := loadedField(x.X); f == fContent && x.High != nil {
-					check(in, x.High, "slice-end", false)
+				if _, f := loadedField(x.X); f == fContent {
+					accesses++
+					if x.High != nil {
+						check(in, x.High, "slice-end", false)
+					}
 				}
 			}
 		}
 	}
-	if n == 0 {
+	if n == 0 && accesses > 0 {
+		// the parser reads its buffer, but none of the bounds is a linear form of the buffer length, the position fields
+		// and parameters (positions found by a library search, tests moved into predicates over other variables): this
+		// rule decides nothing here and says so; R-C01-frame, R-C13-index0 and A8 judge the same code by other means
+		c.S.Trivial("R-C13-parser-bounds", "accesses", "-", fmt.Sprintf("%d access(es) into the parser's buffer, none with a bound inside the linear fragment: not decided by this rule", accesses))
+	} else if n == 0 {
 		c.S.Undecided("R-C13-parser-bounds", "accesses", "-", "no decidable access into the parser's content buffer found")
 	}
 }
